@@ -1,6 +1,7 @@
 package harness
 
 import (
+	"math"
 	"fmt"
 
 	"pgregory.net/rapid"
@@ -98,7 +99,7 @@ var rawClientDeviations = []string{
 	"window_overrun", "empty_method", "no_slash_method", "unknown_method", "rev2", "rev_negative",
 	"window_update_zero", "window_update_huge", "dup_frame", "drop_frame", "swap_frames",
 	"frames_after_cancel", "data_after_half_close", "cancel_mid", "unary_two_requests", "unary_no_request",
-	"half_close_twice", "new_stream_no_md", "size_huge",
+	"half_close_twice", "new_stream_no_md", "size_huge", "id_max", "timeout_key_no_values",
 }
 
 // hugeDeclared: the smallest message size a "size_huge" envelope announces; allocBound is what a
@@ -197,6 +198,26 @@ func applyDeviation(t *rapid.T, label, kind string, streams []*convStream, rpcs 
 				return ""
 			}
 		}
+	case "id_max":
+		// a stream with the largest id there is (legal: greater than all before), then another new_stream - reused, lower or
+		// negative - which can only be "not greater than all seen"
+		mx := int64(math.MaxInt64)
+		tagA := len(rpcs)
+		_ = tagA
+		stA := &convStream{tag: st.tag, id: mx}
+		stA.frames = []RawFrame{{ID: mx, Tag: -1, Kind: "new_stream", Method: "/verif.Svc/Unary", Rev: st.frames[0].Rev, Window: st.frames[0].Window},
+			{ID: mx, Tag: -1, Kind: "msg", Size: 5, DataLen: 5, Zeros: true}, {ID: mx, Tag: -1, Kind: "half_close"}}
+		next := rapid.SampledFrom([]int64{mx, 5, 0, -3, math.MinInt64}).Draw(t, label+".after_max")
+		stA.frames = append(stA.frames, RawFrame{ID: next, Tag: -1, Kind: "new_stream", Method: "/verif.Svc/Unary", Rev: st.frames[0].Rev, Window: st.frames[0].Window})
+		st.frames = append(st.frames, stA.frames...)
+		mark(0, "")
+		*nextID = mx
+		return "id_not_greater_after_max"
+	case "timeout_key_no_values":
+		// the grpc-timeout key is present in the request headers with an empty value list
+		st.frames[0].MD = map[string][]string{"grpc-timeout": {}}
+		// (no deadline results: the conversation stays conforming)
+		return ""
 	case "size_huge":
 		// an envelope announcing gigabytes, followed by the little data the script really has
 		for _, i := range dataIdx() {
